@@ -423,7 +423,7 @@ def step (d : DState) (line : String) : DState × List String :=
   match toks with
   | ["case", n] =>
     let out := closeCase d
-    ({ d with insts := [], srcs := [], sinks := [], pipes := [], f64s := [], f32s := [], caseNo := n.toNat?.getD (d.caseNo + 1),
+    ({ d with insts := [], srcs := [], sinks := [], pipes := [], f64s := [], f32s := [], i64s := [], caseNo := n.toNat?.getD (d.caseNo + 1),
               flags := [], caseOps := 0 }, out)
   | _ =>
     match stepPipeOp d op toks impl with
